@@ -388,9 +388,9 @@ func clipS(s string) string {
 }
 
 func gen(tier string, seed uint64) []runner.Scenario {
-	n := 400
+	n := 250
 	if tier == "thorough" {
-		n = 12000
+		n = 8000
 	}
 	var out []runner.Scenario
 	for i := 0; i < n; i++ {
